@@ -128,17 +128,18 @@ type Config struct {
 }
 
 var (
-	active  bool
-	abort   bool
-	cur     = driver
-	turn    = driver
-	threads []*thread
-	cfg     *Config
-	ex      *Exec
-	pos     int
-	pruned  bool
-	live    int
-	inKey   bool // evaluating the harness state key: shim calls pass through
+	active   bool
+	abort    bool
+	cur      = driver
+	turn     = driver
+	threads  []*thread
+	cfg      *Config
+	ex       *Exec
+	pos      int
+	pruned   bool
+	live     int
+	joinWord uint64
+	inKey    bool // evaluating the harness state key: shim calls pass through
 
 	// LockBlocked is installed by vsync: reports whether acquiring (kind) the lock at addr
 	// would block right now.
@@ -490,6 +491,7 @@ func threadExit(t *thread) {
 	}
 	t.state = stDone
 	t.kind = KEnd
+	raceRelease(unsafe.Pointer(&joinWord))
 	if !abort && active && cur == t.id {
 		schedule(t.id, true)
 	}
@@ -531,6 +533,8 @@ func Run(c *Config, fns []func()) *Exec {
 		}
 	}
 	cur = driver
+	// joining the threads is a happens-before edge in any real driver (WaitGroup, channel)
+	raceAcquire(unsafe.Pointer(&joinWord))
 	for _, t := range threads {
 		ex.ThreadObs = append(ex.ThreadObs, t.obs)
 	}
